@@ -62,6 +62,7 @@ type Program struct {
 	selftest      []map[string]interface{}
 	benign        []map[string]interface{}
 	engineTest    *engineResult
+	crossCheck    map[string]interface{}
 	conformanceNote string
 	quickAudits   []map[string]interface{}
 	groundDone    bool
